@@ -31,6 +31,24 @@ class AObj:
         return f"<{self.cls}#{self.id}>"
 
 
+class AForeign:
+    """an object that is *not* an ndarray but quacks partly like one (a numpy scalar, a memoryview, ...): used to probe type
+    guards.  `kind` is its type name, `has` the attribute names it answers to; np.asarray / TrackedArray of it give a 0-d
+    array of an opaque value (what numpy does for a numpy scalar; for the other kinds the point is only that no exception
+    is raised)."""
+    def __init__(self, kind, has):
+        self.kind = kind
+        self.has = set(has)
+
+    def __repr__(self):
+        return f"<foreign {self.kind}>"
+
+
+NUMPY_SCALAR_ATTRS = ('shape', 'ndim', 'size', 'dtype', 'item', 'real', 'imag', 'T', 'astype', '__neg__', 'itemsize', 'nbytes', 'ravel', 'flatten',
+                      'reshape', 'copy', 'tolist', 'sum', 'max', 'min', '__len__x', '__array__', '__float__')
+MEMORYVIEW_ATTRS = ('shape', 'ndim', 'itemsize', 'format', 'nbytes', 'strides', 'tolist', 'obj', 'readonly', '__len__', '__getitem__')
+
+
 class AClassRef:
     def __init__(self, name):
         self.name = name
@@ -343,6 +361,8 @@ class Interp:
             if len(args) != 1:
                 raise AbstractRaise('TypeError', 'TrackedArray() takes 1 argument')
             src = args[0]
+            if isinstance(src, (AForeign, ASparse)):
+                src = Box(snap(Rat.atom(('foreign', getattr(src, 'kind', 'sparse')))))     # np.asarray(x): a 0-d array
             b = Box(snap(src))
             b.attrs['_modified'] = False
             b.attrs['tracked'] = True
@@ -892,6 +912,16 @@ class Interp:
                         return ABound(obj, mth)
                     return AFuncRef(mth)           # static method, or a plain function taken from the class (explicit self)
             raise AnalysisError(f"class attribute {obj.name}.{name}")
+        if isinstance(obj, AForeign):
+            if name not in obj.has:
+                raise AbstractRaise('AttributeError', f"'{obj.kind}' object has no attribute '{name}'")
+            if name == 'shape':
+                return ()
+            if name == 'ndim':
+                return ZERO
+            if name == 'size':
+                return ONE
+            return AStr(f"<{obj.kind}.{name}>")
         if is_arraylike(obj):
             return self.arr_attr(obj, name)
         if isinstance(obj, ASparse):
